@@ -293,7 +293,7 @@ func sectionD(r *hlib.Run) {
 	rng := r.Rand.Fork()
 	maxLen, perCodec, nEnc, maxPoints := 900, 1, 1, 48
 	if r.Thorough {
-		maxLen, perCodec, nEnc, maxPoints = 6000, 8, 10, 1 << 30
+		maxLen, perCodec, nEnc, maxPoints = 6000, 8, 10, 1<<30
 	}
 	inputs := derived(rng, append(testDataInputs(r.Repo, maxLen, perCodec), encoderInputs(rng, nEnc)...))
 	codecsLine, _ := ds[cdrv.PlainGcc].Run("codecs")
@@ -328,6 +328,16 @@ func sectionD(r *hlib.Run) {
 		lzmaFamily := in.codec == "lzma" || in.codec == "lzip" || in.codec == "xz"
 		hex := hlib.Hex(in.data)
 		pre := "run " + in.codec + " "
+		// std/lzma has a second known defect (KNOWN_FINDINGS, key
+		// split-dependent:lzma-bad-workbuf-length-on-suspension): with a work buffer shorter than
+		// dict_size + 273 (which is what workbuf_len() reports until the dictionary size is known;
+		// "$short workbuf" is how the caller learns the real size) transform_io answers
+		// "#base: bad workbuf length" if it suspends after having written a byte and before
+		// reaching that "$short workbuf" yield. The general sweep gives these three codecs a work
+		// buffer that is large enough from the start; the defect has its own run below.
+		if lzmaFamily {
+			pre += "work=16778240 "
+		}
 		n := len(in.data)
 		for _, fl := range fls {
 			j := &job{in: in, fl: fl}
@@ -359,6 +369,13 @@ func sectionD(r *hlib.Run) {
 				} else if in.kind == "valid" {
 					add("known:lzma-dst-reuse", "src=64 dst=300 ")
 				}
+			}
+			if lzmaFamily && in.kind == "valid" && n >= 8 {
+				// work=auto: as small as workbuf_len() allows, grown on "$short workbuf"
+				j.cmds = append(j.cmds, fmt.Sprintf("run %s src=%d,%s %s", in.codec, n/2, big, hex))
+				j.kinds = append(j.kinds, "known:lzma-workbuf")
+				j.cmds = append(j.cmds, fmt.Sprintf("run %s src=%d,%s %s", in.codec, 28, big, hex))
+				j.kinds = append(j.kinds, "known:lzma-workbuf")
 			}
 			nMulti := 4
 			if !r.Thorough {
@@ -447,7 +464,11 @@ func sectionD(r *hlib.Run) {
 			stride = 1 + outLen/12
 		}
 		for k := unit; k < outLen; k += stride {
-			j.cmds = append(j.cmds, fmt.Sprintf("run %s dst=%d,65536 %s", j.in.codec, k, hlib.Hex(j.in.data)))
+			wopt := ""
+			if c := j.in.codec; c == "lzma" || c == "lzip" || c == "xz" {
+				wopt = "work=16778240 "
+			}
+			j.cmds = append(j.cmds, fmt.Sprintf("run %s %sdst=%d,65536 %s", j.in.codec, wopt, k, hlib.Hex(j.in.data)))
 			j.kinds = append(j.kinds, "dst1")
 			j.res = append(j.res, stdRes{})
 			work[j.fl] = append(work[j.fl], item{j, len(j.cmds) - 1})
@@ -493,12 +514,14 @@ func sectionD(r *hlib.Run) {
 				key := "split-dependent:" + j.in.codec + ":" + j.in.kind
 				if j.kinds[k] == "known:lzma-dst-reuse" {
 					key = "split-dependent:lzma-dst-reused-after-replacement"
+				} else if j.kinds[k] == "known:lzma-workbuf" && rr.status == "#base:_bad_workbuf_length" {
+					key = "split-dependent:lzma-bad-workbuf-length-on-suspension"
 				} else if rr.crash != "" {
 					key = "crash:" + j.in.codec + ":" + rr.crash
 				}
 				r.Fail(key, fmt.Sprintf("std/%s (%s input %s): %s (%s run, %s build)", j.in.codec, j.in.kind, j.in.name, why, j.kinds[k], j.fl),
 					fmt.Sprintf("one-shot: %s\n  -> %s\n%s: %s\n  -> %s", j.cmds[0], one.raw, j.kinds[k], j.cmds[k], rr.raw))
-				if j.kinds[k] != "known:lzma-dst-reuse" {
+				if !strings.HasPrefix(j.kinds[k], "known:") {
 					break
 				}
 			}
